@@ -371,6 +371,11 @@ func genLogicalCall(t *rapid.T, routableOnly bool) logicalCall {
 		maxLen = 300
 	}
 	parts := []string{"s=" + pct(genString(t, "s", maxLen))}
+	if rapid.IntRange(0, 11).Draw(t, "huge") == 0 {
+		// longer than any buffer a reader may peek into (4 KiB and beyond)
+		unit := pct(genString(t, "su", 60)) + "x"
+		parts[0] = "s=" + strings.Repeat(unit, 1+rapid.IntRange(3900, 20000).Draw(t, "hugelen")/len(unit))
+	}
 	if parts[0] == "s=" {
 		parts[0] = "s=''"
 	}
